@@ -111,6 +111,9 @@ def isoformat(dt: datetime.date | datetime.time | datetime.timedelta) -> str:
     """
     if isinstance(dt, (datetime.date, datetime.time)):
         return dt.isoformat()
+    if dt < datetime.timedelta(0):
+        # A negative duration is written as the negated positive one (ISO 8601-2 sign prefix).
+        return f"-{isoformat(-dt)}"
     dur: pendulum.Duration = (
         dt
         if isinstance(dt, pendulum.Duration)
@@ -224,6 +227,9 @@ def dateparse(val: str, t: type[DateTimeT]) -> DateTimeT:
             If `val` is not a date string or does not resolve to an instance of
             the target datetime type.
     """
+    if val.startswith("-P") and issubclass(t, datetime.timedelta):
+        # The parser has no notion of a negative duration; see `isoformat`.
+        return -dateparse(val[1:], t)  # type: ignore[return-value]
     try:
         # When `exact=False`, the only two possibilities are DateTime and Duration.
         parsed: pendulum.DateTime | pendulum.Duration = pendulum.parse(val)  # type: ignore[assignment]
